@@ -47,6 +47,19 @@ add("C19", "exploration",
     STORE_NOTE + " 'Fits an empty segment' is judged by the uncompressed estimate the writer itself uses.",
     "stateful property-based testing with boundary-targeted generation", "§4 C19")
 
+add("C04", "exploration",
+    "Three generated case kinds judged by one oracle (every group any read API returns is one committed model transaction: complete for lookups and partition scans from 0, an in-order suffix after the stream filter for scans): histories rich in multi-event appends that fail behind their first event; crash states with uncommitted bytes on disk (the C05 splice) followed by lookups of the orphan ids and all scans, before and after a further append; and two concurrent reader tasks running against 6-20 multi-event appends (sound under any interleaving).",
+    "Concurrent interleavings are sampled (real threads), not enumerated. Read errors after a crash are judged by C05.",
+    "stateful property-based testing + crash-state enumeration + concurrent stress with an interleaving-independent oracle", "§4 C04")
+add("C05", "fault_enumeration",
+    "For each generated base history (acknowledged, cleanly shut down) a tail of 1-3 transactions is appended by the real writer in a copy and its exact bytes are spliced back prefix by prefix: every record boundary +-1, head-only cuts, the event/commit boundary and sampled interior cuts (every byte for tails under 1 KiB in the thorough tier). Each crash state must open, equal the model for the committed prefix under the full audit, continue sequences/versions without gap or reuse, and survive a second reopen.",
+    "Process-crash model: a prefix of the written bytes survives (no reordering). Tails that roll over are not cut. The expected prefix accounts for bytes the base state already holds (pre-allocated zeros or leftovers of failed appends).",
+    "crash-point enumeration over generated histories with a reference-model oracle", "§4 C05")
+add("C06", "fault_enumeration",
+    "For generated histories with rollovers, the three index files of a sealed segment are put into crash states (empty, header only, prefix inside MPHF / records / values, all but one byte, complete) in tape-chosen combinations (and every single-file state per file in the thorough tier); the database must reopen and pass the full audit. All damaged states currently fail and are listed as known findings by symptom (open fails / reads fail / scans silently skip events); complete states must pass.",
+    "Index prefixes are sampled, not every byte. The sealed data file is assumed complete (fsynced before rollover).",
+    "fault enumeration over index-file states with a reference-model oracle", "§4 C06")
+
 NOT_BUILT = {}
 ALL = ["C%02d" % i for i in range(1, 27)]
 for i in ALL:
